@@ -327,8 +327,8 @@ impl Default for NetOpts {
 }
 
 const PLAIN_NAMES: [&str; 8] = ["a", "b", "c", "d", "e", "g", "h", "k"];
-const HOSTILE_NAMES: [&str; 14] = [
-    "A", "E_", "EXa", "V1", "3x", "1a", "_", "AUx", "x", "xx", "v_1", "EFF", "true1", "in",
+const HOSTILE_NAMES: [&str; 20] = [
+    "A", "E_", "EXa", "V1", "3x", "1a", "_", "AUx", "x", "xx", "v_1", "EFF", "true1", "in", "rep_extra_copy", "AXIN2", "AGO1", "_extra_", "Cdc13", "geneV",
 ];
 
 fn random_expr(rng: &mut Rng, leaves: &[usize], depth: usize) -> Expr {
